@@ -1,6 +1,7 @@
 import DracoModel.Animation
 import DracoModel.SeqDecoder
 import DracoProofs.Scalar
+import DracoProofs.SeqStream
 /-
   Helper lemmas for C20 (keyframe animations):
     * the attribute-list state machine `Anim` (DracoModel/Animation.lean): closed forms of the two
@@ -612,10 +613,23 @@ theorem decodePointAttributesSeq_shape (opts : DecOpts) (numPoints : Nat) (s s' 
       exact q
     · exact absurd h (DecM.failWith_ne_some _ _ _ _)
 
-theorem decodeGeometry_shape (opts : DecOpts) (s s' : DSt) (r : DecodeResult)
-    (h : decodeGeometry opts s = (some r, s')) :
+theorem DecM.failWith_bind_ne_some {α β} (st : Status) (f : α → DecM β) (s : DSt) (b : β)
+    (s' : DSt) : ((DecM.failWith st : DecM α) >>= f) s ≠ (some b, s') := by
+  intro h
+  obtain ⟨_, _, h1, -⟩ := DecM.bind_some h
+  exact DecM.failWith_ne_some _ _ _ _ h1
+
+/-- Every attribute of a geometry decoded by the sequential decoders has the identity map and
+    `numPoints` values. `decodeGeometrySeq` is `Decoder::DecodeBufferToGeometry` with the
+    Edgebreaker / kd-tree bodies rejected; on a point-cloud stream it is exactly
+    `PointCloudSequentialDecoder::Decode` (`PointCloudDecoder::Decode`: header, version gate,
+    metadata, `DecodeGeometryData`, `DecodePointAttributes`), which is what
+    `KeyframeAnimationDecoder::Decode` calls — that class derives from
+    `PointCloudSequentialDecoder` and has no dispatcher of its own. -/
+theorem decodeGeometrySeq_shape (opts : DecOpts) (s s' : DSt) (r : DecodeResult)
+    (h : decodeGeometrySeq opts s = (some r, s')) :
     ∀ a ∈ r.geometry.atts, a.map = none ∧ a.numValues = r.geometry.numPoints := by
-  unfold decodeGeometry at h
+  unfold decodeGeometrySeq decodeStreamWith at h
   obtain ⟨hd, s1, -, h⟩ := DecM.bind_some h
   obtain ⟨_, s2, -, h⟩ := DecM.bind_some h
   dsimp only at h
@@ -624,11 +638,20 @@ theorem decodeGeometry_shape (opts : DecOpts) (s s' : DSt) (r : DecodeResult)
   all_goals
     repeat' (first
       | exact absurd h (DecM.failWith_ne_some _ _ _ _)
+      | exact absurd h (DecM.failWith_bind_ne_some _ _ _ _ _)
       | (obtain ⟨_, _, _, h⟩ := DecM.bind_some h)
       | (split at h))
   all_goals
     obtain ⟨rfl, -⟩ := DecM.pure_some h
     exact decodePointAttributesSeq_shape _ _ _ _ _ (by assumption)
+
+/-- the same for the complete decoder on every stream whose header announces a sequential
+    method -/
+theorem decodeGeometry_shape (opts : DecOpts) (s s' : DSt) (r : DecodeResult)
+    (hs : IsSeqStream s) (h : decodeGeometry opts s = (some r, s')) :
+    ∀ a ∈ r.geometry.atts, a.map = none ∧ a.numValues = r.geometry.numPoints := by
+  rw [decodeGeometry_eq_seq opts s hs] at h
+  exact decodeGeometrySeq_shape opts s s' r h
 
 /-! ## attribute descriptors: writer and round trip -/
 
